@@ -30,6 +30,7 @@ pub enum Tok {
 #[verifier::external_type_specification] #[verifier::external_body] pub struct ExLiteral(Literal);
 #[verifier::external_type_specification] #[verifier::external_body] pub struct ExSpan(Span);
 #[verifier::external_type_specification] #[verifier::external_body] pub struct ExIdent(Ident);
+#[verifier::external_type_specification] pub struct ExVertexFormat(wgpu_types::VertexFormat);
 
 pub uninterp spec fn ts_view(t: &TokenStream) -> Seq<Tok>;
 pub uninterp spec fn lit_view(t: &Literal) -> Tok;
@@ -147,7 +148,7 @@ impl<T: Interp> RepSrc for Vec<T> { type Item = T; open spec fn rep_view(&self) 
 impl<'a, T: Interp> RepSrc for &'a [T] { type Item = T; open spec fn rep_view(&self) -> Seq<T> { (*self)@ } #[verifier::external_body] fn as_rep_slice(&self) -> (r: &[T]) { *self } }
 
 // ---- format!/panic! stand-ins ----
-pub enum FmtV { U(int), S(Seq<char>), Tk(Tok) }
+pub enum FmtV { U(int), S(Seq<char>), Tk(Tok), SF(naga::StorageFormat), VF(wgpu_types::VertexFormat) }
 pub struct FmtHandle { pub v: Ghost<FmtV> }
 pub trait FmtArg { spec fn fview(&self) -> FmtV; fn view_of(&self) -> (r: FmtHandle) ensures r.v@ == self.fview(); }
 impl FmtArg for u32 { open spec fn fview(&self) -> FmtV { FmtV::U(*self as int) } fn view_of(&self) -> (r: FmtHandle) { FmtHandle { v: Ghost(self.fview()) } } }
@@ -155,6 +156,8 @@ impl FmtArg for usize { open spec fn fview(&self) -> FmtV { FmtV::U(*self as int
 impl FmtArg for String { open spec fn fview(&self) -> FmtV { FmtV::S(self@) } fn view_of(&self) -> (r: FmtHandle) { FmtHandle { v: Ghost(self.fview()) } } }
 impl FmtArg for str { open spec fn fview(&self) -> FmtV { FmtV::S(self@) } fn view_of(&self) -> (r: FmtHandle) { FmtHandle { v: Ghost(self.fview()) } } }
 impl FmtArg for Literal { open spec fn fview(&self) -> FmtV { FmtV::Tk(lit_view(self)) } fn view_of(&self) -> (r: FmtHandle) { FmtHandle { v: Ghost(self.fview()) } } }
+impl FmtArg for wgpu_types::VertexFormat { open spec fn fview(&self) -> FmtV { FmtV::VF(*self) } fn view_of(&self) -> (r: FmtHandle) { FmtHandle { v: Ghost(self.fview()) } } }
+impl FmtArg for naga::StorageFormat { open spec fn fview(&self) -> FmtV { FmtV::SF(*self) } fn view_of(&self) -> (r: FmtHandle) { FmtHandle { v: Ghost(self.fview()) } } }
 impl<'a, T: FmtArg + ?Sized> FmtArg for &'a T { open spec fn fview(&self) -> FmtV { (**self).fview() } fn view_of(&self) -> (r: FmtHandle) { FmtHandle { v: Ghost(self.fview()) } } }
 pub uninterp spec fn fmt1(tpl: &str, a: FmtV) -> Seq<char>;
 pub uninterp spec fn fmt2(tpl: &str, a: FmtV, b: FmtV) -> Seq<char>;
